@@ -9,7 +9,6 @@ import (
 	"sort"
 	"strings"
 
-	"golang.org/x/tools/go/types/typeutil"
 
 	"verif/sa/internal/core"
 	"verif/sa/internal/flow"
@@ -387,40 +386,57 @@ func checkC10(p *core.Program, r *core.Report) {
 			}
 		}
 	}
-	// O10.5 CLI
+	// O10.5 CLI: on SSA, so that the sites are found inside helpers and generic decode functions (instances carry the
+	// concrete type)
+	mainPath := ""
+	if mp := p.Pkg(""); mp != nil {
+		mainPath = mp.PkgPath
+	}
+	unitName := map[*ssa.Function]string{}
 	for _, c := range cliCommands(p) {
-		if c.Action.Node == nil {
+		if a := actionSSA(p, c); a != nil {
+			unitName[a] = "main.cmd:" + c.Name
+		}
+	}
+	for _, fn := range repoFuncsAndInstances(p) {
+		if pkgPathOf(fn) != mainPath {
 			continue
 		}
-		info := c.Pkg.TypesInfo
-		ast.Inspect(c.Action.Node, func(n ast.Node) bool {
-			call, ok := n.(*ast.CallExpr)
-			if !ok {
-				return true
-			}
-			fn, _ := typeutil.Callee(info, call).(*types.Func)
-			if fn == nil {
-				return true
-			}
-			switch fn.FullName() {
-			case "encoding/json.Marshal":
-				tv := info.Types[call.Args[0]]
-				if base := baseNamed(tv.Type); base == pt {
-					r.Count("CLI proof codec sites", 1)
-					r.Check(hasMethod(tv.Type, "MarshalJSON"), "O10.5", "main.cmd:"+c.Name+": json.Marshal(proof)", p.Pos(call.Pos()), "argument exposes MarshalJSON", "argument type "+tv.Type.String()+" hides the pointer-receiver MarshalJSON")
+		un := unitName[fn]
+		if un == "" {
+			un = "main." + fn.Name()
+		}
+		for _, b := range fn.Blocks {
+			for _, in := range b.Instrs {
+				call, ok := in.(*ssa.Call)
+				if !ok || call.Common().StaticCallee() == nil {
+					continue
 				}
-			case "encoding/json.Unmarshal":
-				if len(call.Args) == 2 {
-					tv := info.Types[call.Args[1]]
-					if base := baseNamed(tv.Type); base == pt {
+				argT := func(k int) types.Type {
+					if k >= len(call.Common().Args) {
+						return nil
+					}
+					a := call.Common().Args[k]
+					if mi, isMI := a.(*ssa.MakeInterface); isMI {
+						return mi.X.Type()
+					}
+					return a.Type()
+				}
+				switch call.Common().StaticCallee().String() {
+				case "encoding/json.Marshal":
+					if t := argT(0); t != nil && baseNamed(t) == pt {
 						r.Count("CLI proof codec sites", 1)
-						_, isPtr := types.Unalias(tv.Type).(*types.Pointer)
-						r.Check(isPtr && hasMethod(tv.Type, "UnmarshalJSON"), "O10.5", "main.cmd:"+c.Name+": json.Unmarshal into proof", p.Pos(call.Pos()), "decodes through UnmarshalJSON", "destination does not expose UnmarshalJSON")
+						r.Check(hasMethod(t, "MarshalJSON"), "O10.5", un+": json.Marshal(proof)", p.Pos(call.Pos()), "argument exposes MarshalJSON", "argument type "+t.String()+" hides the pointer-receiver MarshalJSON")
+					}
+				case "encoding/json.Unmarshal":
+					if t := argT(1); t != nil && baseNamed(t) == pt {
+						r.Count("CLI proof codec sites", 1)
+						_, isPtr := types.Unalias(t).(*types.Pointer)
+						r.Check(isPtr && hasMethod(t, "UnmarshalJSON"), "O10.5", un+": json.Unmarshal into proof", p.Pos(call.Pos()), "decodes through UnmarshalJSON", "destination does not expose UnmarshalJSON")
 					}
 				}
 			}
-			return true
-		})
+		}
 	}
 	r.Floor("encoder slots", 8)
 	r.Floor("decoder slots", 8)
